@@ -120,12 +120,13 @@ def render_merge(rng: Any, m: dict[str, Any], hz: dict[str, bool]) -> str:
     lo = True
     tgt = f"{DB}.{SC}.{m['target']}" if m["qualified"] else m["target"]
     talias = m["target"]
+    sq = f"{DB}.{SC}.{m['source']}" if m.get("src_qualified") else m["source"]
     if m["source_form"] == "table":
-        src, s = m["source"], m["source"]
+        src, s = sq, m["source"]
     elif m["source_form"] == "alias":
-        src, s = f"{m['source']} AS src", "src"
+        src, s = f"{sq} AS src", "src"
     else:
-        src, s = f"(SELECT K, V, FLAG FROM {m['source']}) src", "src"
+        src, s = f"(SELECT K, V, FLAG FROM {sq}) src", "src"
     if hz["target_alias"] and m.get("target_alias"):
         tgt, talias = f"{tgt} tgt", "tgt"
     parts = [f"{_kw(rng, 'MERGE INTO', lo)} {tgt} {_kw(rng, 'USING', lo)} {src} {_kw(rng, 'ON', lo)} {talias}.K = {s}.K"]
@@ -178,6 +179,9 @@ def gen(rng: Any, prop: str, tier: str) -> dict[str, Any]:
     ops: list[dict[str, Any]] = [{"s": "s0", "k": "connect", "database": DB, "schema": SC}]
     if two_sessions:
         ops.append({"s": "s1", "k": "connect", "database": DB, "schema": SC})
+    ctxless = rng.random() < 0.2
+    if ctxless:
+        ops.append({"s": "sq", "k": "connect", "database": rng.choice([None, DB]), "schema": None})
     ops.append({"s": "s0", "k": "exec", "sql": f"CREATE TABLE TGT (K INT, V INT, W INT{' NOT NULL' if not_null_w else ''})", "tag": "setup"})
     ops.append({"s": "s0", "k": "exec", "sql": "CREATE TABLE BYS (K INT, V INT, W INT)", "tag": "setup"})
     if trows:
@@ -232,7 +236,12 @@ def gen(rng: Any, prop: str, tier: str) -> dict[str, Any]:
         end = rng.choice(["ROLLBACK", "COMMIT"])
         if in_txn:
             ops.append({"s": "s0", "k": "exec", "sql": "BEGIN", "tag": "begin"})
-        ops.append({"s": "s0", "k": "exec", "sql": render_merge(rng, m, hz), "tag": "merge", "merge": m, "source_rows": srows})
+        by = "s0"
+        if ctxless and not in_txn and rng.random() < 0.5:
+            # fully qualified names need no session context: the MERGE is issued by a session without current database and schema
+            m["qualified"] = m["src_qualified"] = True
+            by = "sq"
+        ops.append({"s": by, "k": "exec", "sql": render_merge(rng, m, hz), "tag": "merge", "merge": m, "source_rows": srows})
         if rng.random() < 0.25:
             # a MERGE that fails because of what it refers to: it must change nothing, also inside the open transaction
             bad = rng.choice(["MERGE INTO TGT USING NO_SUCH_SRC s ON TGT.K = s.K WHEN MATCHED THEN DELETE",
